@@ -116,13 +116,42 @@ type wireFact struct {
 }
 
 // wireAlt: an equivalent formulation of the same connection (e.g. append in loop order instead of an indexed store), by obligation key.
-var wireAlt = map[string][]string{
-	"desc.Chord.Describe|order": {"call builtin.append(phi", ",[desc.Attribute.Describe(p0.attr,chord.Mapper.GetChordAttributes(p0.mapper,p1)#0[i].Name,p2,p3)#0])"},
+var wireAlt = map[string][][]string{
+	"desc.Chord.Describe|order": {
+		{"call builtin.append(phi", ",[desc.Attribute.Describe(p0.attr,chord.Mapper.GetChordAttributes(p0.mapper,p1)#0[i].Name,p2,p3)#0])"},
+		// the resolved attribute handed on as it is instead of being looked up by its name again
+		{"[i] <- desc.Attribute.", "(p0.attr,chord.Mapper.GetChordAttributes(p0.mapper,p1)#0[i],p2,p3)#0"},
+		// (looked through: the description built in round i - from attribute i, see `each` - is stored at i)
+		{"[i] <- var<desc.AttributeInfo>"},
+	},
+	// ... in which case root and preference reach the spelling of each attribute directly
+	"desc.Chord.Describe|each": {{"call note.Note.AddDegree(p2,chord.Mapper.GetChordAttributes(p0.mapper,p1)#0[i].Degree,p3)"}},
 	// the generated name: prefix then the number in decimal, by formatting or by concatenation
-	"chord.GenerateAttributes|name": {"store var<chord.Attribute>.Name <- ", "#0++strconv.FormatUint(p0.Value,10)"},
+	"chord.GenerateAttributes|name": {{"store var<chord.Attribute>.Name <- ", "#0++strconv.FormatUint(p0.Value,10)"}},
 	// the bass of the cmt text: the bass's own interval, printed by its own printer
-	"input.ChordMetaTextMotifier.generateText|bass": {"p0.slashSep++note.Degree.String(p1.Base)"},
-	"astconv.ValuesConverterImpl.Convert|order":     {"call builtin.append(phi", ",[astconv.ValuesConverterImpl.convertValue(p0,p1.Values[i])#0])"},
+	"input.ChordMetaTextMotifier.Modify|bass":   {{"p0.slashSep++note.Degree.String(p1.Chord.Base)"}},
+	"astconv.ValuesConverterImpl.Convert|order": {{"call builtin.append(phi", ",[astconv.ValuesConverterImpl.convertValue(p0,p1.Values[i])#0])"}},
+}
+
+// wireCount: fact keys that must hold that many times (once for the chord clause, once for the rest clause).
+var wireCount = map[string]int{
+	"astconv.ASTConverter.Convert|meta":   2,
+	"astconv.ASTConverter.Convert|values": 2,
+}
+
+// wireOnly: fact keys whose destination may only be written by the stated fact (the prefix selects the stores in question).
+var wireOnly = map[string]string{
+	"astconv.SyllableChordConverter.convertChordDegree|root-store": "store p1.Degree <- ",
+	"astconv.SyllableChordConverter.convertChordDegree|bass-store": "store p1.Base <- ",
+	"cmd.newWriteCmdArgsFromInputInstances|chord-store":            "store var<op.Instance>.Chord <- ",
+}
+
+// syllableConvertSubsumes: the functions whose data-flow facts are implied when Convert is decided on its whole domain.
+var syllableConvertSubsumes = map[string]bool{
+	"SyllableChordConverter.Convert":            true,
+	"SyllableChordConverter.convertChordDegree": true,
+	"SyllableChordConverter.getTendency":        true,
+	"SyllableChordConverter.newScaleNote":       true,
 }
 
 const tokVal = "github.com/berquerant/ybase.Token.Value"
@@ -193,9 +222,10 @@ var wireSpecs = []wireSpec{
 		{"values", []string{"store var<input.Instance>.Values <- astconv.ValuesConverter.Convert(p0.valuesConverter,"}, "the durations are not stored in the instance"},
 		{"chord", []string{"store var<input.Instance>.Chord <- astconv.ChordConverter.Convert(p0.chordConverter,"}, "the converted chord is not stored in the instance"},
 	}},
-	{"input", "ChordMetaTextMotifier.generateText", []wireFact{
-		{"root", []string{"[p1.Degree.Value,note.DegreeName.Coerce(p1.Degree.Name)"}, "the root is not written as its own number followed by its own mark"},
-		{"bass", []string{"p1.Base])"}, "the bass is not written with its own interval (number and mark of the bass, not of the root)"},
+	// (phrased on Modify, with whatever helper builds the text looked through: generateText today)
+	{"input", "ChordMetaTextMotifier.Modify", []wireFact{
+		{"root", []string{"[p1.Chord.Degree.Value,note.DegreeName.Coerce(p1.Chord.Degree.Name)"}, "the root is not written as its own number followed by its own mark"},
+		{"bass", []string{"p1.Chord.Base])"}, "the bass is not written with its own interval (number and mark of the bass, not of the root)"},
 	}},
 	{"input/ast", "NewToken", []wireFact{
 		{"type", []string{"store var<input/ast.Token>.VType <- github.com/berquerant/ybase.Token.Type(p0)"}, "a tree token loses the lexer's token type: consumers that dispatch on the type (the accidental canonicaliser) see type 0"},
@@ -214,7 +244,11 @@ var wireSpecs = []wireSpec{
 	{"note", "Note.Semitone", []wireFact{{"sum", []string{"return note.Accidental.Semitone(p0.Accidental)+note.Name.Semitone(p0.Name)"}, "a note's pitch is not letter + accidental"}}},
 	{"op", "Scale.Tonic", []wireFact{{"first", []string{"return p0.Notes[0]"}, "the tonic is not the first scale note"}}},
 	{"op", "Scale.GetNoteIndexByName", []wireFact{{"index", []string{"return i;nil"}, "the index returned is not the index of the matching letter"}}},
-	{"chord", "Attribute.Semitone", []wireFact{{"degree", []string{"call note.Degree.Semitone(p0.Degree)"}, "an attribute's size is not its degree's size"}}},
+	{"chord", "Attribute.Semitone", []wireFact{
+		{"degree", []string{"call note.Degree.Semitone(p0.Degree)"}, "an attribute's size is not its degree's size"},
+		{"as-it-is", []string{"return note.Degree.Semitone(p0.Degree)#0;note.Degree.Semitone(p0.Degree)#1"}, "an attribute's size is not handed on as the degree's size (clamped, shifted or replaced on the way: the diminished unison is -1)"},
+	}},
+	{"op", "AllScales", []wireFact{{"keys", []string{"maps.Keys(op.keySignatures)"}, "the list of scales is not made from the keys of the signature table (every supported key, each once)"}}},
 	{"note", "NewDegree", []wireFact{
 		{"value", []string{"store var<note.Degree>.Value <- p0"}, "the interval number is not stored"},
 		{"name", []string{"store var<note.Degree>.Name <- p1"}, "the interval quality is not stored"},
@@ -271,6 +305,7 @@ var wireSpecs = []wireSpec{
 	{"cmd", "getScale", []wireFact{
 		{"flag", []string{"call cmd.getKey(p0)"}, "the scale is not taken from --key"},
 		{"default", []string{"call op.MustParseKey(\"C\")"}, "the default key is not C"},
+		{"scale", []string{"return op.NewScale(phi0<op.Key>)#0;nil"}, "the scale handed on is not the one NewScale builds for the key (a scale looked up somewhere else can be the enharmonic twin's)"},
 	}},
 	{"cmd", "writeCmdArgs.writeToPlay", []wireFact{
 		{"writer", []string{"call midix.NewWriter(960,p0.trackSet,p0.instrument,p0.program)"}, "the MIDI writer is not built from the resolution constant, the track set and the instrument/program flags"},
@@ -278,7 +313,22 @@ var wireSpecs = []wireSpec{
 	}},
 	{"cmd", "newWriteCmdArgsFromInputInstances", []wireFact{
 		{"chord", []string{"call op.NewChord(p1[i].Chord.Degree,chord.Mapper.GetChord(cmd.newChordMap(p0)#0,p1[i].Chord.Chord)#0,p1[i].Chord.Base)"}, "the played chord is not built from the instance's own degree, looked-up symbol and base"},
+		{"chord-store", []string{"store var<op.Instance>.Chord <- op.NewChord(p1[i].Chord.Degree,chord.Mapper.GetChord(cmd.newChordMap(p0)#0,p1[i].Chord.Chord)#0,p1[i].Chord.Base)"}, "the chord played for an instance is not the one built from that instance's own degree, symbol and base (e.g. it is taken over from the instance before)"},
+		{"values", []string{"store var<op.Instance>.Values <- p1[i].Values"}, "the durations of an instance are not taken over from the input instance"},
+		{"bpm", []string{"store var<op.Instance>.BPM <- p1[i].BPM"}, "the tempo of an instance is not taken over from the input instance"},
+		{"velocity", []string{"store var<op.Instance>.Velocity <- p1[i].Velocity"}, "the dynamic of an instance is not taken over from the input instance"},
+		{"meter", []string{"store var<op.Instance>.Meter <- p1[i].Meter"}, "the meter of an instance is not taken over from the input instance"},
+		{"key", []string{"store var<op.Instance>.Key <- p1[i].Key"}, "the key of an instance is not taken over from the input instance"},
+		{"meta", []string{"store var<op.Instance>.Meta <- p1[i].Meta"}, "the metadata of an instance is not taken over from the input instance"},
 	}},
+	{"op", "Circle.At", []wireFact{{"member", []string{"return util.Ring.At(p0.r,p1)"}, "a slot of the circle is not handed out as it stands in the ring (a rebuilt member can lose the enharmonic spellings of the slot)"}}},
+	{"op", "Circle.All", []wireFact{{"members", []string{"return util.Ring.All(p0.r)"}, "the circle's members are not listed as they stand in the ring"}}},
+	{"op", "Circle.Index", []wireFact{{"by-key", []string{"call util.Set.In(op.CircleMember.Keys(util.Ring.At(p0.r,i)),p1)"}, "a key's slot is not found by looking for the key among every spelling of every slot"}}},
+	{"input/ast", "NewLexer", []wireFact{
+		{"reader", []string{"call github.com/berquerant/ybase.NewReader(p0,"}, "the scanner does not read the text it was given as it is (something rewrites or filters the input before it is tokenised: what a symbol or a metadata text says is no longer what was written)"},
+		{"scan", []string{"bound:input/ast.LexScanner.ScanFunc(var<input/ast.LexScanner>)"}, "the scanner is not driven by LexScanner.ScanFunc"},
+	}},
+	{"cmd", "getKey", []wireFact{{"as-given", []string{"call op.ParseKey(github.com/spf13/pflag.FlagSet.GetString(github.com/spf13/cobra.Command.Flags(p0),\"key\")#0)"}, "--key is not parsed as it was given (re-cased, trimmed or rewritten first: a spelling the parser accepts may not survive that)"}}},
 	{"cmd", "getRootNote", []wireFact{{"flag", []string{"call note.ParseNote("}, "the root flag is not parsed as a note"}}},
 	{"cmd", "newChordMap", []wireFact{{"build", []string{"call chord.Builder.Build("}, "the dictionary is not built (and validated) from the builder"}}},
 }
@@ -300,8 +350,36 @@ func ruleWire(c *Ctx) {
 			c.parseDegreeFolded = true
 		}
 	}
+	// the note-name reader, decided on the property's whole domain (28 keys x 21 roots x 22 basses) by folding when it folds
+	if fn := c.fn("astconv", "SyllableChordConverter.Convert"); fn != nil && (c.wants == nil || c.wants("WIRE", "astconv.SyllableChordConverter|domain")) {
+		if problem, n, ok := c.syllableConvertByFolding(); ok {
+			c.site(1)
+			c.check(problem == "", "astconv.SyllableChordConverter|domain", c.pos(fn.Pos()), fname(fn), fmt.Sprintf("%d single chords (28 keys x 21 root spellings x no bass + 21 bass spellings) folded through NewScale and Convert: number = letter distance, size = pitch distance from the tonic (the bass: from the root); the scale's own notes accepted; a written bass never dropped; the symbol kept; the scale left as it was", n), fname(fn)+": "+problem)
+			c.syllableConvertFolded = true
+		}
+	}
+	// the degree reader, decided on numbers 1..15 x five accidental spellings x five basses by folding when it folds
+	if fn := c.fn("astconv", "DegreeChordConverter.Convert"); fn != nil {
+		if problem, n, ok := c.degreeConvertByFolding(); ok {
+			c.site(1)
+			c.check(problem == "", "astconv.DegreeChordConverter.Convert|domain", c.pos(fn.Pos()), fname(fn), fmt.Sprintf("%d single chords (numbers 1..15 x no mark, #, U+266F, b, U+266D x no bass + 4 basses) folded: the degree and the base are the intervals the notation names, the symbol is kept", n), fname(fn)+": "+problem)
+			c.degreeConvertFolded = true
+		}
+	}
 	for _, ws := range wireSpecs {
 		fn := c.fn(ws.pkg, ws.fn)
+		if (c.syllableConvertFolded && ws.pkg == "astconv" && syllableConvertSubsumes[ws.fn]) || (c.degreeConvertFolded && ws.pkg == "astconv" && (ws.fn == "DegreeChordConverter.Convert" || ws.fn == "DegreeChordConverter.convertDegree")) {
+			// how the converter is put together is subsumed by the decision on the whole domain
+			for _, nf := range ws.need {
+				c.site(1)
+				pos, name := "", ws.pkg+"."+ws.fn
+				if fn != nil {
+					pos, name = c.pos(fn.Pos()), fname(fn)
+				}
+				c.ok(ws.pkg+"."+ws.fn+"|"+nf.label, pos, name, "decided by the |domain fold of the converter")
+			}
+			continue
+		}
 		if fn == nil {
 			c.missing(ws.pkg + "." + ws.fn)
 			continue
@@ -310,6 +388,16 @@ func ruleWire(c *Ctx) {
 		for _, nf := range ws.need {
 			c.site(1)
 			key := ws.pkg + "." + ws.fn + "|" + nf.label
+			if ws.pkg == "astconv" && ws.fn == "MetaConverterImpl.Convert" {
+				if problem, n, ok := c.metaConvertByFolding(); ok {
+					c.check(problem == "", key, c.pos(fn.Pos()), fname(fn), fmt.Sprintf("%d metadata blocks folded: every written key with its own (last) value, nothing else", n), fname(fn)+": "+problem)
+					continue
+				}
+			}
+			if ws.pkg == "chord" && ws.fn == "GenerateAttributes" && c.generateAttributesDecided() {
+				c.ok(key, c.pos(fn.Pos()), fname(fn), "decided by TAB-ATTRS chord.GenerateAttributes|folded")
+				continue
+			}
 			if c.parseDegreeFolded && ws.pkg == "note" && ws.fn == "ParseDegree" && (nf.label == "contains" || nf.label == "trim" || nf.label == "bare" || nf.label == "build") {
 				c.ok(key, c.pos(fn.Pos()), fname(fn), "decided by note.ParseDegree|domain")
 				continue
@@ -319,7 +407,65 @@ func ruleWire(c *Ctx) {
 				c.ok(key, c.pos(fn.Pos()), fname(fn), "decided by op.ScaleNote.GetDegree|domain")
 				continue
 			}
-			found := hasFact(facts, nf.has...) || (len(wireAlt[key]) > 0 && hasFact(facts, wireAlt[key]...))
+			found := hasFact(facts, nf.has...)
+			for _, alt := range wireAlt[key] {
+				found = found || hasFact(facts, alt...)
+			}
+			// some facts hold once per clause of a type switch (chords and rests): counted
+			if n, ok := wireCount[key]; ok && found {
+				m := 0
+				for _, f := range facts {
+					if hasFact([]string{f}, nf.has...) {
+						m++
+					}
+				}
+				if m < n {
+					found = false
+					nf.why += fmt.Sprintf(" in every clause (%d of %d: rests are instances too)", m, n)
+				}
+			}
+			// some destinations have one source only: every store into them is the stated one (a shortcut that stores
+			// something else on some path - a cached answer, a constant - is not the measurement)
+			if only, ok := wireOnly[key]; ok && found {
+				for _, f := range facts {
+					if strings.HasPrefix(f, only) && !hasFact([]string{f}, nf.has...) {
+						found = false
+						nf.why += " on every path (another store: " + f + ")"
+					}
+				}
+			}
+			if !found && key == "op.Key.Semitone|sum" {
+				// by value: folded on all 42 key spellings, the tonic's pitch is the letter's plus the accidental's
+				names, accs := c.enumConsts("note", "Name"), c.enumConsts("op", "Accidental")
+				problem, n := "", 0
+				for _, l := range specLetters {
+					for an, d := range map[string]int{"Natural": 0, "Sharp": 1, "Flat": -1} {
+						for _, minor := range []bool{false, true} {
+							recv := fval{fields: map[string]fval{"Name": {k: constant.MakeInt64(names[l])}, "Accidental": {k: constant.MakeInt64(accs[an])}, "Minor": {k: constant.MakeBool(minor)}}}
+							r, err := c.newFolder().foldMethod(fn, recv, nil)
+							if err != nil || r.k == nil || r.k.Kind() != constant.Int {
+								continue
+							}
+							n++
+							if got, _ := constant.Int64Val(r.k); got != int64(specNatural(l)+d) {
+								problem = fmt.Sprintf("the tonic of %s %s is %d semitones above C, want %d", l, an, got, specNatural(l)+d)
+							}
+						}
+					}
+				}
+				if n == 42 {
+					c.check(problem == "", key, c.pos(fn.Pos()), fname(fn), "letter + accidental on all 42 key spellings (folded)", fname(fn)+": "+problem)
+					continue
+				}
+			}
+			if !found && ws.pkg == "op" && nf.label == "names" && (ws.fn == "DiatonicChorderImpl.Triads" || ws.fn == "DiatonicChorderImpl.Sevenths") {
+				// the names the method hands out were read off the method itself (folded for a major and a minor scale)
+				tn := map[string]string{"DiatonicChorderImpl.Triads": "triadNames", "DiatonicChorderImpl.Sevenths": "seventhNames"}[ws.fn]
+				if _, _, _, err := c.diatonicTables(tn); err == nil && c.diatonicViaAPI[tn] {
+					c.ok(key, c.pos(fn.Pos()), fname(fn), "decided by TAB-DIATONIC on the names "+ws.fn+" itself returns")
+					continue
+				}
+			}
 			c.check(found, key, c.pos(fn.Pos()), fname(fn), "wired as stated", fmt.Sprintf("%s: %s (expected data-flow fact containing %q not found)", fname(fn), nf.why, strings.Join(nf.has, " ... ")))
 		}
 	}
@@ -416,9 +562,54 @@ func ruleWire(c *Ctx) {
 		}
 		c.check(problem == "", "note.Note.AddDegree|found-only", c.pos(fn.Pos()), fname(fn), fmt.Sprintf("%d successful return(s), each depending on root pitch and interval size", n), fname(fn)+": "+problem)
 	}
+	// every setting of a metadata block is looked at whatever else the block holds: in Modify no return is reached past
+	// one of the four conversions other than through `no metadata` and a failed conversion
+	if fn := c.fn("astconv", "MetaInstanceModifierImpl.Modify"); fn != nil {
+		for _, step := range []string{"convertBPM", "convertVelocity", "convertMeter", "convertKey"} {
+			for _, rc := range c.regionCalls(fn, nil) {
+				if calleeName(rc.call.Common()) != "astconv.MetaInstanceModifierImpl."+step {
+					continue
+				}
+				c.site(1)
+				problem := ""
+				li := rc.li()
+				for k := 0; k <= len(rc.chain); k++ {
+					at := li.at(k)
+					f := at.Parent()
+					if b := bypassReturn(f, at.Block(), func(iff *ssa.If) int {
+						if e := errEdgeCut(iff); e >= 0 {
+							return e
+						}
+						// `there is no metadata block`
+						cmp, ok := iff.Cond.(*ssa.BinOp)
+						if !ok || (cmp.Op != token.EQL && cmp.Op != token.NEQ) || !(isNilConst(cmp.X) || isNilConst(cmp.Y)) {
+							return -1
+						}
+						x := cmp.X
+						if isNilConst(x) {
+							x = cmp.Y
+						}
+						if typeName(x.Type()) != "op.Meta" {
+							return -1
+						}
+						if cmp.Op == token.EQL {
+							return 0
+						}
+						return 1
+					}); b != nil {
+						problem = "a return is reached without " + step + " although there is a metadata block and nothing failed: that setting is dropped when the block also holds something else"
+					}
+				}
+				c.check(problem == "", fname(fn)+"|"+step+"|always", c.pos(rc.call.Pos()), fname(fn), step+" is applied to every metadata block", fname(fn)+": "+problem)
+			}
+		}
+	}
 	// a written bass is always converted: in front of the store of the chord's base stand only `is there a bass` and the
 	// error tests of the steps before - nothing that looks at what the bass (or the root) is
-	if fn := c.fn("astconv", "SyllableChordConverter.convertChordDegree"); fn != nil {
+	if fn := c.fn("astconv", "SyllableChordConverter.convertChordDegree"); fn != nil && c.syllableConvertFolded {
+		c.site(1)
+		c.ok(fname(fn)+"|bass-always", c.pos(fn.Pos()), fname(fn), "decided by astconv.SyllableChordConverter|domain")
+	} else if fn != nil {
 		for _, f := range c.regionFuncChainsList(fn) {
 			allInstrs(f, func(in ssa.Instruction) {
 				st, ok := in.(*ssa.Store)
@@ -468,7 +659,7 @@ func ruleWire(c *Ctx) {
 		case "cmd.textCmdConvSyllable.RunE":
 			facts := c.facts(f)
 			c.site(1)
-			c.check(hasFact(facts, "call astconv.NewSyllableASTConverter(cmd.getScale(p0)#0)"), a+"|scale", c.pos(f.Pos()), a, "the converter starts in the --key scale", a+": the syllable converter is not created with the scale of --key")
+			c.check(hasFact(facts, "call astconv.NewSyllableASTConverter(cmd.getScale(p0)#0)") || hasFact(facts, "call astconv.NewSyllableASTConverter(up(cmd.getScale(p0)#0))"), a+"|scale", c.pos(f.Pos()), a, "the converter starts in the --key scale", a+": the syllable converter is not created with the scale of --key")
 		case "cmd.infoKeyCmdDescribe.RunE":
 			facts := c.facts(f)
 			c.site(1)
@@ -744,6 +935,21 @@ func (c *Ctx) isRepoCallOrInvoke(call *ssa.Call) bool {
 //
 // ok=false when the function does not fold; the facts-based checks then stand alone.
 func (c *Ctx) scaleDegreeByFolding(fn *ssa.Function) (string, int, bool) {
+	if c.scaleDegreeFold != nil {
+		return c.scaleDegreeFold.problem, c.scaleDegreeFold.n, c.scaleDegreeFold.ok
+	}
+	p, n, ok := c.scaleDegreeByFoldingUncached(fn)
+	c.scaleDegreeFold = &foldVerdict{p, n, ok}
+	return p, n, ok
+}
+
+type foldVerdict struct {
+	problem string
+	n       int
+	ok      bool
+}
+
+func (c *Ctx) scaleDegreeByFoldingUncached(fn *ssa.Function) (string, int, bool) {
 	names := c.enumConsts("note", "Name")
 	accs := c.enumConsts("op", "Accidental")
 	dnames := c.enumConsts("note", "DegreeName")
